@@ -407,3 +407,47 @@ func (l *logWriter) Write(p []byte) (int, error) {
 	}
 	return l.w.Write(p)
 }
+
+// PoolGet / PoolPut replace Get and Put on a sync.Pool of the code under test
+// while a simulator is attached: one last-in-first-out free list per pool,
+// shared by every caller, nothing ever dropped. Which object a Get returns is
+// then a function of the schedule alone (the runtime's pools depend on the P a
+// goroutine happens to run on and on garbage collections), and reuse across
+// callers is as frequent as it can be. The list's mutex orders a Put before
+// every later Get, as the real pool does for the object handed over.
+var (
+	poolMu    sync.Mutex
+	poolLists = map[*sync.Pool][]any{}
+)
+
+func PoolGet(p *sync.Pool) any {
+	if H == nil {
+		return p.Get()
+	}
+	poolMu.Lock()
+	l := poolLists[p]
+	var x any
+	if n := len(l); n > 0 {
+		x = l[n-1]
+		l[n-1] = nil
+		poolLists[p] = l[:n-1]
+	}
+	poolMu.Unlock()
+	if x == nil && p.New != nil {
+		x = p.New()
+	}
+	return x
+}
+
+func PoolPut(p *sync.Pool, x any) {
+	if H == nil {
+		p.Put(x)
+		return
+	}
+	if x == nil {
+		return
+	}
+	poolMu.Lock()
+	poolLists[p] = append(poolLists[p], x)
+	poolMu.Unlock()
+}
